@@ -1911,14 +1911,12 @@ int sm2_z256_point_to_uncompressed_octets(const SM2_Z256_POINT *P, uint8_t out[6
 
 int sm2_z256_point_from_octets(SM2_Z256_POINT *P, const uint8_t *in, size_t inlen)
 {
+	if (!P || !in || inlen < 1) {
+		error_print();
+		return -1;
+	}
+	// the point at infinity (00) is not a public key or a key-agreement share
 	switch (*in) {
-	case SM2_point_at_infinity:
-		if (inlen != 1) {
-			error_print();
-			return -1;
-		}
-		sm2_z256_point_set_infinity(P);
-		break;
 	case SM2_point_compressed_y_even:
 		if (inlen != 33) {
 			error_print();
@@ -1944,8 +1942,8 @@ int sm2_z256_point_from_octets(SM2_Z256_POINT *P, const uint8_t *in, size_t inle
 			error_print();
 			return -1;
 		}
-		sm2_z256_point_from_bytes(P, in + 1);
-		if (sm2_z256_point_is_on_curve(P) != 1) {
+		// from_bytes checks x, y < p, the curve equation and (x,y) != (0,0)
+		if (sm2_z256_point_from_bytes(P, in + 1) != 1) {
 			error_print();
 			return -1;
 		}
